@@ -28,9 +28,12 @@ type Step struct {
 
 // SrcSpec describes one scripted source.
 type SrcSpec struct {
-	Mode   string `json:"mode"`           // "sync" | "async" | "timed" | "hot"
-	Ctor   string `json:"ctor,omitempty"` // "unsafe" (default) | "safe" | "default" | "eventually"
-	Script []Step `json:"script"`
+	Mode string `json:"mode"`           // "sync" | "async" | "timed" | "hot"
+	Ctor string `json:"ctor,omitempty"` // "unsafe" (default) | "safe" | "default" | "eventually"
+	// TermFirst: with several producers only producer 0 issues the script's terminal notification; the
+	// others emit the values only (so the one terminal call can collide with somebody else's Next)
+	TermFirst bool   `json:"term_first,omitempty"`
+	Script    []Step `json:"script"`
 	// Producers > 1: that many goroutines replay the script concurrently into the same destination
 	// (contract-breaking producer; only meaningful for safe constructors and subjects).
 	Producers int `json:"producers,omitempty"`
@@ -463,7 +466,7 @@ type Src struct {
 	EmitAfterRelease int
 	DoubleTeardown   int
 	PanicTeardown    bool // the teardown panics after doing its bookkeeping
-	MaxLiveStrict    int // like MaxLive, not counting subscriptions whose own terminal call is in progress
+	MaxLiveStrict    int  // like MaxLive, not counting subscriptions whose own terminal call is in progress
 	NilCtx           int
 	Ctxs             []context.Context
 	Done             int // producers that finished their script
@@ -572,6 +575,18 @@ func (s *Src) play(dest ro.Observer[int], ctx context.Context, sub *srcSub, prod
 				return
 			}
 			s.EmitAfterRelease++
+		}
+		if s.Spec.TermFirst && prod > 0 && st.K != "N" {
+			continue
+		}
+		if st.K == "P" {
+			// the subscribe function itself panics at this point (synchronous sources only: the panic
+			// must unwind into the library's Subscribe, not into a harness goroutine)
+			if s.Spec.Mode != "sync" {
+				continue
+			}
+			s.env.K.Log(fmt.Sprintf("src%d subscribe function panics", s.ID))
+			panic(ScriptError(st.V))
 		}
 		if s.Spec.Producers > 1 && st.K == "N" {
 			st.V += 1000 * prod // values stay attributable to one producer call
